@@ -18,15 +18,19 @@ import (
 	"math/rand"
 	"os"
 	"runtime"
+	"runtime/debug"
 	"sort"
 	"strings"
 	"sync"
+	"sync/atomic"
+	"time"
 
 	"github.com/pingcap/log"
 	"github.com/tikv/pd/server/core"
 	"github.com/tikv/pd/server/schedule/operator"
 	"go.uber.org/zap"
 	"verif/harness/lib/ev"
+	"verif/harness/lib/hist"
 	"verif/harness/lib/sim"
 )
 
@@ -76,7 +80,7 @@ func (s *stats) merge(o *stats) {
 func callCheck(f func() []*operator.Operator) (ops []*operator.Operator, panicked interface{}) {
 	defer func() {
 		if p := recover(); p != nil {
-			panicked = p
+			panicked = fmt.Sprintf("%v\n%s", p, debug.Stack())
 		}
 	}()
 	return f(), nil
@@ -84,7 +88,7 @@ func callCheck(f func() []*operator.Operator) (ops []*operator.Operator, panicke
 
 // prepare builds the per-case context (store views are per cluster).
 func prepare(cl *cluster, views map[uint64]*storeView, k *kase) (*caseCtx, error) {
-	origin, err := regionFromLayout(k.Region)
+	origin, err := regionFromDesc(k.RegionID, k.ConfVer, k.Region)
 	if err != nil {
 		return nil, err
 	}
@@ -138,31 +142,70 @@ func (c *caseCtx) candidateClasses() string {
 	return strings.Join(l, "+")
 }
 
-// exec runs one case: both entry points of the checker that is in force.
-func exec(s *stats, cl *cluster, views map[uint64]*storeView, k *kase, suffix string) {
-	c, err := prepare(cl, views, k)
-	if err != nil {
-		s.count("harness_bad_layout", 1)
-		return
+// callResult is what one checker call returned.
+type callResult struct {
+	via        string
+	ops        []*operator.Operator
+	panicked   interface{}
+	allocFired bool  // the injected id-allocation fault was hit during the call
+	call, ret  int64 // logical clock (lib/hist) before the call and after its return
+}
+
+func checkerName(w *world) string {
+	if w.Rules != "off" {
+		return "rule-checker"
 	}
-	c.suffix = suffix
-	w := k.World
-	s.count("cases", 1)
-	name := "replica-checker"
-	direct := func() []*operator.Operator {
-		if op := cl.replica.Check(c.info); op != nil {
+	return "replica-checker"
+}
+
+// invoke performs one checker call (via = "direct": ReplicaChecker / RuleChecker.Check; anything starting
+// with "controller": CheckerController.CheckRegion) on the region, optionally with the id allocator failing.
+func invoke(cl *cluster, rulesOn bool, info *core.RegionInfo, via string, failAlloc bool) callResult {
+	f := func() []*operator.Operator { return cl.controller.CheckRegion(info) }
+	if via == "direct" {
+		f = func() []*operator.Operator {
+			var op *operator.Operator
+			if rulesOn {
+				op = cl.rule.Check(info)
+			} else {
+				op = cl.replica.Check(info)
+			}
+			if op == nil {
+				return nil
+			}
 			return []*operator.Operator{op}
 		}
-		return nil
 	}
-	if c.rulesOn() {
-		name = "rule-checker"
-		direct = func() []*operator.Operator {
-			if op := cl.rule.Check(c.info); op != nil {
-				return []*operator.Operator{op}
-			}
-			return nil
+	res := callResult{via: via}
+	before := atomic.LoadInt64(&cl.fc.allocFails)
+	if failAlloc {
+		atomic.StoreInt32(&cl.fc.failAlloc, 1)
+	}
+	res.call = hist.Tick()
+	res.ops, res.panicked = callCheck(f)
+	res.ret = hist.Tick()
+	if failAlloc {
+		atomic.StoreInt32(&cl.fc.failAlloc, 0)
+	}
+	res.allocFired = atomic.LoadInt64(&cl.fc.allocFails) > before
+	return res
+}
+
+// judgeCall judges one call result in the view c (rules, stores, settings the call was handed).
+// It returns the simulated outcome of the (first) proposed operator, nil if none / not replayable.
+func (c *caseCtx) judgeCall(s *stats, res *callResult) (final *sim.Region) {
+	k, w := c.k, c.k.World
+	name, via := checkerName(w), res.via
+	s.count("calls_"+name+"_"+via, 1)
+	if res.panicked != nil {
+		site := via + c.suffix
+		if c.origin.LeaderStore == 0 {
+			site = "region-without-leader" // one input class whatever the entry point and the history
 		}
+		s.report(&finding{Key: name + ":panic-in-check:" + site, Size: len(w.Stores)*100 + len(c.origin.Peers)*10,
+			What:    fmt.Sprintf("%s (%s) panicked on region [%s]: %s", name, via, k.Region, strings.SplitN(fmt.Sprint(res.panicked), "\n", 2)[0]),
+			Witness: map[string]interface{}{"case": k, "checker": name, "via": via, "panic": fmt.Sprint(res.panicked), "origin": c.origin.Describe(), "alloc_fault_hit": res.allocFired}})
+		return nil
 	}
 	relation := "="
 	switch n := len(c.origin.Peers); {
@@ -171,49 +214,67 @@ func exec(s *stats, cl *cluster, views map[uint64]*storeView, k *kase, suffix st
 	case n > w.MaxReplicas:
 		relation = ">"
 	}
-	for _, via := range []string{"direct", "controller"} {
-		f := direct
-		if via == "controller" {
-			f = func() []*operator.Operator { return cl.controller.CheckRegion(c.info) }
-		}
-		ops, p := callCheck(f)
-		s.count("checker_calls", 1)
-		s.count("calls_"+name+"_"+via, 1)
-		if p != nil {
-			s.report(&finding{Key: name + ":panic-in-check:" + via + suffix, Size: len(w.Stores)*100 + len(c.origin.Peers)*10,
-				What:    fmt.Sprintf("%s (%s) panicked on region [%s]: %v", name, via, k.Region, p),
-				Witness: map[string]interface{}{"case": k, "checker": name, "via": via, "panic": fmt.Sprint(p), "origin": c.origin.Describe()}})
-			continue
-		}
-		if len(ops) == 0 {
+	if res.allocFired {
+		s.count("calls_with_id_allocation_fault_hit", 1)
+	}
+	if len(res.ops) == 0 {
+		if res.allocFired {
+			// the operator could not be created: proposing nothing is what the statement allows
+			s.count("nil_not_judged_id_allocation_failed", 1)
+		} else {
 			c.judgeNil(s, name, via)
-			s.shapes[name+"|"+via+"|nil|"+relation+"|"+c.candidateClasses()] = struct{}{}
-			continue
 		}
-		if res, _, _, _ := c.repairRequired(via); res == yes {
-			s.count("repair_clearly_required_and_proposed", 1)
+		s.shapes[name+"|"+via+"|nil|"+relation+"|"+c.candidateClasses()] = struct{}{}
+		return nil
+	}
+	if r, _, _, _ := c.repairRequired(via); r == yes {
+		s.count("repair_clearly_required_and_proposed", 1)
+	}
+	for i, op := range res.ops {
+		steps := sim.Steps(op)
+		f := c.judgeSteps(s, name, via, op.Desc(), op.String(), steps)
+		if i == 0 {
+			final = f
 		}
-		for _, op := range ops {
-			steps := sim.Steps(op)
-			c.judgeSteps(s, name, via, op.Desc(), op.String(), steps)
-			var kinds []string
+		var kinds []string
+		for _, st := range steps {
+			kinds = append(kinds, stepKind(st))
+		}
+		s.shapes[name+"|"+via+"|"+op.Desc()+"|"+strings.Join(kinds, ",")+"|"+relation+"|"+c.candidateClasses()] = struct{}{}
+		if len(s.samples) < 2 && len(steps) >= 3 {
+			var ss []string
 			for _, st := range steps {
-				kinds = append(kinds, stepKind(st))
+				ss = append(ss, st.String())
 			}
-			s.shapes[name+"|"+via+"|"+op.Desc()+"|"+strings.Join(kinds, ",")+"|"+relation+"|"+c.candidateClasses()] = struct{}{}
-			if len(s.samples) < 2 && len(steps) >= 3 {
-				var ss []string
-				for _, st := range steps {
-					ss = append(ss, st.String())
-				}
-				s.samples = append(s.samples, map[string]interface{}{"world": w, "region": k.Region, "checker": name, "via": via, "desc": op.Desc(), "steps": ss})
-			}
+			s.samples = append(s.samples, map[string]interface{}{"world": w, "region": k.Region, "checker": name, "via": via, "desc": op.Desc(), "steps": ss})
 		}
 	}
+	return final
+}
+
+// exec runs one case sequentially: both entry points of the checker that is in force. It returns the
+// simulated outcome of what CheckRegion proposed (nil if nothing / not replayable).
+func exec(s *stats, cl *cluster, views map[uint64]*storeView, k *kase, suffix string) (final *sim.Region) {
+	c, err := prepare(cl, views, k)
+	if err != nil {
+		s.count("harness_bad_layout", 1)
+		return nil
+	}
+	c.suffix = suffix
+	s.count("cases", 1)
+	for _, via := range []string{"direct", "controller"} {
+		res := invoke(cl, c.rulesOn(), c.info, via, k.FailAlloc == via || k.FailAlloc == "both")
+		s.count("checker_calls", 1)
+		f := c.judgeCall(s, &res)
+		if via == "controller" {
+			final = f
+		}
+	}
+	return final
 }
 
 func randomPhase(r *ev.Run, workers int, total *stats, mu *sync.Mutex) {
-	worlds := r.Pick(6000, 18000)
+	worlds := r.Pick(5000, 15000)
 	var wg sync.WaitGroup
 	var fatal sync.Once
 	for wk := 0; wk < workers; wk++ {
@@ -223,7 +284,7 @@ func randomPhase(r *ev.Run, workers int, total *stats, mu *sync.Mutex) {
 			rng := rand.New(rand.NewSource(r.ShardSeed()*131 + int64(wk)))
 			st := newStats()
 			for wi := wk; wi < worlds; wi += workers {
-				w := genWorld(rng)
+				w := genWorld(rng, wi%100 == 7)
 				if err := runHistory(st, w, rng, nil); err != nil {
 					fatal.Do(func() { r.Inconclusive("cannot build cluster: %v", err) })
 					return
@@ -253,7 +314,7 @@ func replayFile(r *ev.Run, path string, total *stats) {
 		return
 	}
 	k := doc.Witness.Case
-	w0, rounds := k.World, []roundDesc{{Regions: []string{k.Region}}}
+	w0, rounds := k.World, []roundDesc{{Regions: []regionDesc{{ID: k.RegionID, ConfVer: k.ConfVer, Layout: k.Region, FailAlloc: k.FailAlloc}}}}
 	if k.Initial != nil && len(k.History) > 0 {
 		w0, rounds = k.Initial, k.History
 	}
@@ -303,7 +364,12 @@ func main() {
 	if r.Replay != "" {
 		replayFile(r, r.Replay, total)
 	} else {
+		t0 := time.Now()
 		randomPhase(r, workers, total, &mu)
+		t1 := time.Now()
+		concurrentPhase(r, workers, total, &mu)
+		r.Set("phase_seconds_histories", t1.Sub(t0).Seconds()) // information only
+		r.Set("phase_seconds_concurrent", time.Since(t1).Seconds())
 		r.Floor(int64(r.Pick(100000, 200000)))
 	}
 
